@@ -164,15 +164,33 @@ def big_props(rng):
 
 
 def judge_big(res, wd, g, runs, tag):
+    """TLC judges the runs of one graph; the records of big graphs are large (one line per visit), so they are judged in
+    groups whose total number of visits stays moderate"""
     gp = os.path.join(wd, "bg-%s.ndjson" % tag)
-    rp = os.path.join(wd, "br-%s.ndjson" % tag)
-    op = os.path.join(wd, "bo-%s.json" % tag)
     write_ndjson(gp, [g])
-    write_ndjson(rp, runs)
-    r = run_tlc("JudgeBigRuns.tla", "cfg/empty.cfg", env=dict(GRAPH=gp, RUNS=rp, OUT=op), timeout=2400, name="jbig-" + tag, heap="8g")
-    if not r["ok"]:
-        raise ToolError("big-run judge failed: " + r["out"][-2500:])
-    return json.load(open(op))
+    groups, cur, vol = [], [], 0
+    for r in runs:
+        v = len(r["visits"]) + 1
+        if cur and vol + v > 900000:
+            groups.append(cur)
+            cur, vol = [], 0
+        cur.append(r)
+        vol += v
+    if cur:
+        groups.append(cur)
+    out = dict(judged=[], reach=0)
+    for k, grp in enumerate(groups):
+        rp = os.path.join(wd, "br-%s-%d.ndjson" % (tag, k))
+        op = os.path.join(wd, "bo-%s-%d.json" % (tag, k))
+        write_ndjson(rp, grp)
+        r = run_tlc("JudgeBigRuns.tla", "cfg/empty.cfg", env=dict(GRAPH=gp, RUNS=rp, OUT=op), timeout=2400, name="jbig-%s-%d" % (tag, k), heap="8g")
+        if not r["ok"]:
+            raise ToolError("big-run judge failed: " + r["out"][-2500:])
+        o = json.load(open(op))
+        out["judged"] += o["judged"]
+        out["reach"] = o["reach"]
+        os.remove(rp)
+    return out
 
 
 def checker_runs(res, pid, graphs, cfgs_for, fields, wd, tag):
@@ -261,9 +279,10 @@ def c05(res):
 
     def cfgs(i, g):
         out = []
+        large = g["n"] > 20000
         for s in ("bfs", "dfs"):
-            for t in threads:
-                for pz in ((0, 1) if (q or t == 1) else (0, 1, 2, 3)):
+            for t in ([1, 4, 16] if large else threads):
+                for pz in ((0, 1) if (q or t == 1 or large) else (0, 1, 2)):
                     out.append(gg.base_cfg(s, t, light=True, market_log=True, perturb=(rng.randint(1, 2 ** 31) if pz else 0), watchdog_ms=60000))
         out.append(gg.base_cfg("ondemand", 2, light=True, market_log=True, watchdog_ms=60000))
         return out
